@@ -128,6 +128,9 @@ func main() {
 		"fun c => accepts (fst c) (snd c)", 600)
 	wd := 40 * time.Millisecond
 
+	if resendEntry(c) { // receivers with topic and WithResend(true): resend.go
+		return
+	}
 	if c.Replay != "" {
 		var gen struct {
 			Kind      string `json:"kind"`
